@@ -8,21 +8,25 @@
    C06_driver.v proves this for the driver under the premise that the statement parser is
    delimiter-respecting ([ps_delimited]: followed by end of input or a SEMICOLON token it consumes
    exactly the statement and returns what it returns on the statement alone).  Here the premise is
-   PROVED for the statement parser of the SELECT-core model (Select/SelectParseModel.v, a
-   correspondence-tested transcription of parseStatement for SELECT / "(" statements), by a
-   simulation over all mutually recursive parse functions (Select/SelectCoreDelim.v): the run on
-   toks ++ SEMICOLON :: more  and the run on  toks  (end = EOF) go through related states
+   PROVED, at full strength, for the statement parser of the SELECT-core model
+   (Select/SelectParseModel.v, a correspondence-tested transcription of parseStatement for
+   SELECT / "(" statements): EVERY token list that the model accepts alone, completely and without
+   error, is delimiter-respecting.  The proof is a simulation over all mutually recursive parse
+   functions (Select/SelectCoreDelim.v): the run on  toks ++ SEMICOLON :: more  and the run on
+   toks  (end = EOF) go through related states
        toks' = toks ++ rest   /\   (errors = [] -> errors' = [])
    and return the same values.
 
-   FULL STATEMENT (false for the model and for /repo, see C06_fragment_refuted):
-       every token list accepted alone without error is delimiter-respecting.
-   PROVED (names ending in _partial): every such token list EXCEPT the statements that take the
-   token-skipping branch of parseParenthesizedSelect -- "(" not followed by SELECT / WITH / "(" --
-   without closing the parenthesis inside the statement ([paren_skip_closed ts = false]).
-   The skipping loop `for depth > 0 && !p.currentIs(token.EOF)` (parser.go:7911) stops at EOF
-   but not at a SEMICOLON: parser.Parse("(1") and parser.Parse("SELECT 2") return one statement
-   each and no error, parser.Parse("(1; SELECT 2") returns ONE statement and no error.
+   History: the first version of this proof needed a side condition and came with a refutation of
+   the full statement -- the token-skipping loop of parseParenthesizedSelect stopped at EOF but not
+   at a SEMICOLON, so parser.Parse("(1; SELECT 2") returned ONE statement while "(1" and
+   "SELECT 2" alone returned one each.  Fixed in /repo 1a6cd4528
+   (`for depth > 0 && !p.currentIs(token.EOF) && !p.currentIs(token.SEMICOLON)`); the model
+   transcribes the fixed loop, the side condition is gone, and the former counterexample is an
+   Example below.
+
+   What remains a premise of C06 as a whole: delimiter-respect of the statement parsers OUTSIDE
+   the fragment (every statement kind other than SELECT / "(").
 
    Tied to /repo by the SELECT-core correspondence (checks/gen_selectcore_cases.py). *)
 From Coq Require Import List NArith Bool String.
@@ -38,76 +42,67 @@ Module DP := Driver.DriverProof.
 
 (* the model's statement parser, followed by a SEMICOLON token and anything, consumes exactly the
    statement: every fuel for the run alone, every sufficient fuel for the run in the script *)
-Theorem C06_fragment_statement_partial : forall f f' ts q rest,
-  paren_skip_closed ts = true -> tok_at rest = T_SEMICOLON ->
+Theorem C06_fragment_statement : forall f f' ts q rest,
+  tok_at rest = T_SEMICOLON ->
   parse_model_fuel f ts = Ok (q, [], []) ->
   (3 * List.length (ts ++ rest) + 2 <= f')%nat ->
   parse_model_fuel f' (ts ++ rest) = Ok (q, rest, []).
-Proof. exact parse_model_fuel_semi_partial. Qed.
-Print Assumptions C06_fragment_statement_partial.
+Proof. exact parse_model_fuel_semi. Qed.
+Print Assumptions C06_fragment_statement.
 
 (* the bare transcription of parseStatement (no printer-fragment check) *)
-Theorem C06_fragment_statement_raw_partial : forall f f' ts q rest,
-  ts <> [] -> paren_skip_closed ts = true -> tok_at rest = T_SEMICOLON ->
+Theorem C06_fragment_statement_raw : forall f f' ts q rest,
+  ts <> [] -> tok_at rest = T_SEMICOLON ->
   parse_statement_raw f (mkSt ts []) = Ok (q, mkSt [] []) ->
   (3 * List.length (ts ++ rest) + 2 <= f')%nat ->
   parse_statement_raw f' (mkSt (ts ++ rest) []) = Ok (q, mkSt rest []).
-Proof. exact parse_statement_raw_delimited_partial. Qed.
-Print Assumptions C06_fragment_statement_raw_partial.
+Proof. exact parse_statement_raw_delimited. Qed.
+Print Assumptions C06_fragment_statement_raw.
 
 (* with the fuel that parse_model supplies, at every statement boundary *)
-Theorem C06_fragment_parse_model_partial : forall ts q rest,
-  paren_skip_closed ts = true -> (rest = [] \/ tok_at rest = T_SEMICOLON) ->
+Theorem C06_fragment_parse_model : forall ts q rest,
+  (rest = [] \/ tok_at rest = T_SEMICOLON) ->
   parse_model ts = Ok (q, [], []) -> parse_model (ts ++ rest) = Ok (q, rest, []).
-Proof. exact parse_model_delimited_partial. Qed.
-Print Assumptions C06_fragment_parse_model_partial.
+Proof. exact parse_model_delimited. Qed.
+Print Assumptions C06_fragment_parse_model.
 
-(* the premise of C06_driver_script / C06_driver_concat holds for the model's statement parser *)
-Theorem C06_fragment_ps_delimited_partial : forall ts q,
+(* the premise of C06_driver_script / C06_driver_concat holds for the model's statement parser on
+   every token list it accepts alone ([accepted ts q] := parse_model ts = Ok (Some q, [], [])) *)
+Theorem C06_fragment_ps_delimited : forall ts q,
   accepted ts q -> DP.ps_delimited model_ps ts (Some q) [].
-Proof. exact model_ps_delimited_partial. Qed.
-Print Assumptions C06_fragment_ps_delimited_partial.
+Proof. exact model_ps_delimited. Qed.
+Print Assumptions C06_fragment_ps_delimited.
 
 (* hence: a script of accepted SELECT-core statements, separated (and preceded, and followed) by
    arbitrary semicolons, parses to the statements parsed alone, in order, without error *)
-Theorem C06_fragment_script_partial :
+Theorem C06_fragment_script :
   forall (mk : query -> list query -> query) (ctx_err : DM.ctx_error) (read_failed : bool)
          (pre : list item) (segs : list (DP.segment query err)),
     DP.all_semi pre -> DP.seps_ok segs -> Forall frag_segment segs ->
     DP.full model_ps mk ctx_err read_failed (pre ++ DP.join segs) =
     DM.finish read_failed (DP.script_stmts segs) [].
-Proof. exact select_core_script_partial. Qed.
-Print Assumptions C06_fragment_script_partial.
+Proof. exact select_core_script. Qed.
+Print Assumptions C06_fragment_script.
 
-Theorem C06_fragment_concat_partial :
+Theorem C06_fragment_concat :
   forall (mk : query -> list query -> query) (ctx_err : DM.ctx_error) (read_failed : bool)
          (pre : list item) (segs : list (DP.segment query err)),
     DP.all_semi pre -> DP.seps_ok segs -> Forall frag_segment segs ->
     DM.stmts_of (DP.full model_ps mk ctx_err read_failed (pre ++ DP.join segs)) =
     flat_map (fun g => DM.stmts_of (DP.full model_ps mk ctx_err read_failed (DP.sg_toks g))) segs.
-Proof. exact select_core_script_concat_partial. Qed.
-Print Assumptions C06_fragment_concat_partial.
+Proof. exact select_core_script_concat. Qed.
+Print Assumptions C06_fragment_concat.
 
 (* ... with identical EXPLAIN output (the printer model is a function of the statement) *)
-Theorem C06_fragment_explain_partial :
+Theorem C06_fragment_explain :
   forall (mk : query -> list query -> query) (ctx_err : DM.ctx_error) (read_failed : bool)
          (pre : list item) (segs : list (DP.segment query err)),
     DP.all_semi pre -> DP.seps_ok segs -> Forall frag_segment segs ->
     map print_query (DM.stmts_of (DP.full model_ps mk ctx_err read_failed (pre ++ DP.join segs))) =
     flat_map (fun g => map print_query
                          (DM.stmts_of (DP.full model_ps mk ctx_err read_failed (DP.sg_toks g)))) segs.
-Proof. exact select_core_script_explain_partial. Qed.
-Print Assumptions C06_fragment_explain_partial.
-
-(* the excluded class is not empty: "(1" followed by "; SELECT 2" *)
-Theorem C06_fragment_refuted :
-  parse_model witness_stmt = Ok (Some (Query [] [] false), [], []) /\
-  tok_at witness_rest = T_SEMICOLON /\
-  parse_model (witness_stmt ++ witness_rest) = Ok (Some (Query [] [] false), [], []) /\
-  parse_model (witness_stmt ++ witness_rest) <> Ok (Some (Query [] [] false), witness_rest, []) /\
-  paren_skip_closed witness_stmt = false.
-Proof. exact delimited_refuted. Qed.
-Print Assumptions C06_fragment_refuted.
+Proof. exact select_core_script_explain. Qed.
+Print Assumptions C06_fragment_explain.
 
 (* ------------------------------------------------------------------------------------------ *)
 (* The premises are satisfied by a non-trivial statement, from source text through the lexer model *)
@@ -135,7 +130,7 @@ Definition q_of (ts : list item) : query :=
   match parse_model ts with Ok (Some q, _, _) => q | _ => Query [] [] false end.
 
 Example ex_accepted : accepted stmt1 (q_of stmt1) /\ accepted stmt2 (q_of stmt2).
-Proof. vm_compute. repeat split; reflexivity. Qed.
+Proof. vm_compute. split; reflexivity. Qed.
 
 Example ex_first_statement_is_not_trivial :
   match q_of stmt1 with
@@ -151,8 +146,8 @@ Example ex_first_statement_delimited : forall s1 rest q1,
   s1 = stmt1 -> rest = semi1 ++ stmt2 -> accepted s1 q1 ->
   parse_model (s1 ++ rest) = Ok (Some q1, rest, []).
 Proof.
-  intros s1 rest q1 E1 E2 [H Hs].
-  apply C06_fragment_parse_model_partial; [exact Hs| |exact H].
+  intros s1 rest q1 E1 E2 H.
+  apply C06_fragment_parse_model; [|exact H].
   right. rewrite E2. vm_compute. reflexivity.
 Qed.
 
@@ -162,18 +157,10 @@ Example ex_script_by_theorem : forall s1 sep s2 q1 q2,
   DP.full model_ps (fun q _ => q) DM.Canceled false (s1 ++ sep ++ s2) = DM.Finished [q1; q2] DM.NoErr [].
 Proof.
   intros s1 sep s2 q1 q2 E1 E2 E3 H1 H2.
-  apply (select_core_two_statements_partial (fun q _ => q) DM.Canceled false s1 sep s2 q1 q2 H1 H2).
+  apply (select_core_two_statements (fun q _ => q) DM.Canceled false s1 sep s2 q1 q2 H1 H2).
   - rewrite E2. vm_compute. reflexivity.
   - rewrite E2. vm_compute. discriminate.
 Qed.
-
-(* the witness from source text: "(1" alone, "SELECT 2" alone, and the script "(1; SELECT 2" *)
-Example ex_refuted_from_source :
-  (exists q, parse_model (lex "(1") = Ok (Some q, [], [])) /\
-  (exists q, parse_model (lex "SELECT 2") = Ok (Some q, [], [])) /\
-  (exists q, parse_model (lex "(1; SELECT 2") = Ok (Some q, [], [])) /\
-  paren_skip_closed (lex "(1") = false /\ paren_skip_closed (lex "(1)") = true.
-Proof. vm_compute. repeat split; eexists; reflexivity. Qed.
 
 (* the concrete instance: the script of the two statements gives the two statements parsed alone *)
 Example ex_script_concrete :
@@ -182,4 +169,27 @@ Example ex_script_concrete :
 Proof.
   exact (ex_script_by_theorem stmt1 semi1 stmt2 (q_of stmt1) (q_of stmt2) eq_refl eq_refl eq_refl
            (proj1 ex_accepted) (proj2 ex_accepted)).
+Qed.
+
+(* the former counterexample, from source text: "(1" is accepted alone (an empty
+   SelectWithUnionQuery), and in the script "(1; SELECT 2" it is delimited: the statement parser
+   stops at the SEMICOLON and leaves "; SELECT 2" *)
+Definition paren_script : list item := lex "(1; SELECT 2".
+Definition paren_stmt : list item := firstn 2 paren_script.
+Definition paren_rest : list item := skipn 2 paren_script.
+
+Example ex_unclosed_paren_is_delimited :
+  map it_tok paren_stmt = [T_LPAREN; T_NUMBER] /\
+  map it_tok paren_rest = [T_SEMICOLON; T_SELECT; T_NUMBER] /\
+  accepted paren_stmt (Query [] [] false) /\
+  parse_model paren_script = Ok (Some (Query [] [] false), paren_rest, []).
+Proof. vm_compute. repeat split; reflexivity. Qed.
+
+Example ex_unclosed_paren_by_theorem : forall s rest,
+  s = paren_stmt -> rest = paren_rest -> accepted s (Query [] [] false) ->
+  DP.ps_delimited model_ps s (Some (Query [] [] false)) [] /\
+  parse_model (s ++ rest) = Ok (Some (Query [] [] false), rest, []).
+Proof.
+  intros s rest E1 E2 H. split; [apply C06_fragment_ps_delimited; exact H|].
+  apply C06_fragment_parse_model; [|exact H]. right. rewrite E2. vm_compute. reflexivity.
 Qed.
